@@ -1,5 +1,5 @@
 """Which functions, lemmas and bounded stand-ins decide which property (DESIGN.md sections 0 and 5)."""
-from . import abnf, core, recv, app, url, http, net
+from . import abnf, core, recv, app, url, http, net, extra
 from harness import appsim, native_c10, native_c11, native_c18, native_c19, native_c20
 
 GLOBAL_TRUSTED = [
@@ -13,7 +13,7 @@ LEMMAS = {}
 # contract cases that legitimately have no normal exit (e.g. "no socket": always raises)
 NEVER_RETURNS = {"websocket._socket:recv/none", "websocket._socket:send/bytes-none", "websocket._socket:send/str-none",
                  "websocket._http:connect/proxy-socks,resolve"}
-MODULES = [abnf, recv, core, url, app, http, net]
+MODULES = [abnf, recv, core, url, app, http, net, extra]
 COST = {}
 
 
@@ -52,7 +52,8 @@ T_LOG = "logging calls are effect-free; isEnabledForTrace() is an unconstrained 
 
 SEND_FUNCS = [A + "_mask", A + "ABNF.mask", A + "ABNF._get_masked", A + "ABNF.format", A + "ABNF.create_frame",
               SK + "send", K + "WebSocket._send", K + "WebSocket.send_frame", K + "WebSocket.send", K + "WebSocket.ping",
-              K + "WebSocket.pong", K + "WebSocket.send_close"]
+              K + "WebSocket.pong", K + "WebSocket.send_close", K + "WebSocket.send_binary", K + "WebSocket.send_text",
+              K + "WebSocket.send_bytes", K + "WebSocket.set_mask_key"]
 RECV_FUNCS = [A + "frame_buffer.recv_strict", A + "frame_buffer.recv_frame", A + "ABNF.validate", A + "ABNF.mask", A + "_mask",
               SK + "recv", K + "WebSocket._recv", K + "WebSocket.recv_data_frame", K + "WebSocket.recv",
               U + "validate_utf8", U + "_validate_utf8"]
@@ -192,7 +193,7 @@ PROPS = {
         not_decided=["behaviour of urlparse on the full URL grammar (bounded differential only)"]),
     "C19": dict(
         functions=[U_ + "_is_ip_address", U_ + "_is_subnet_address", U_ + "_is_address_in_network", U_ + "_is_no_proxy_host", U_ + "get_proxy_info",
-                   HK + "_get_addrinfo_list", HK + "_tunnel", HK + "connect", HK + "read_headers"],
+                   HK + "_get_addrinfo_list", HK + "_tunnel", HK + "connect", HK + "read_headers", HK + "proxy_info.__init__"],
         lemmas=[], bounded=[native_c19.bounded],
         trusted_base=["assumed contract of socket.inet_aton (predicate inet_ok, value ipv4) and of urlparse / unquote / os.environ / base64",
                       "str.lstrip('.') and str.replace are uninterpreted with the facts stated in pyvc.engine"],
